@@ -2,6 +2,7 @@ import Cardutil.SrcTie.Pin
 import Cardutil.SrcTie.Misc
 import Cardutil.Props.C14
 import Cardutil.Props.C13
+import Cardutil.Lemmas.Aes
 /-
   Source tie for the WHOLE functions around the cipher library (C14): `key.calculate_kcv`, `key.encrypt_key`,
   `key.get_zone_master_key`, `key.get_enc_zone_master_key` and `pinblock.calculate_pvv`.  The three statements of an
@@ -178,5 +179,93 @@ theorem C14_source_zone_master_key (L : Nat) (hL : L = 32 ∨ L = 48) (parts : L
   have := C14_source_kcv (Pin.nibblesToBytes clear) hk 6
   rw [show ((6 : Nat) : Int) = (6 : Int) from rfl] at this
   rw [this, bind_ok_eq]
+
+/-! ### the static `encrypt` / `decrypt` methods of the two encryption mix-ins (C13) -/
+
+def tdesD : CipherFn := fun key data => Des.tdesEcb true key data
+
+/-- AES-ECB of the model as the external cipher functions -/
+def aesE : CipherFn := fun key data =>
+  match Aes.ecbEncrypt key data with
+  | some c => .ok c
+  | none => .escape .valueError
+def aesD : CipherFn := fun key data =>
+  match Aes.ecbDecrypt key data with
+  | some c => .ok c
+  | none => .escape .valueError
+
+theorem tdes_encrypt_eq (E : CipherFn) (keyHex : Text) (data : Bytes) :
+    Src.Tdes_encrypt E keyHex data = Outcome.bind (Pin.unhexlify keyHex) (fun k => E k data) := by
+  unfold Src.Tdes_encrypt Rt.unhexlify; simp only [bind_ok_right]
+theorem tdes_decrypt_eq (D : CipherFn) (keyHex : Text) (data : Bytes) :
+    Src.Tdes_decrypt D keyHex data = Outcome.bind (Pin.unhexlify keyHex) (fun k => D k data) := by
+  unfold Src.Tdes_decrypt Rt.unhexlify; simp only [bind_ok_right]
+theorem aes_encrypt_eq (E : CipherFn) (keyHex : Text) (data : Bytes) :
+    Src.Aes_encrypt E keyHex data = Outcome.bind (Pin.unhexlify keyHex) (fun k => E k data) := by
+  unfold Src.Aes_encrypt Rt.unhexlify; simp only [bind_ok_right]
+theorem aes_decrypt_eq (D : CipherFn) (keyHex : Text) (data : Bytes) :
+    Src.Aes_decrypt D keyHex data = Outcome.bind (Pin.unhexlify keyHex) (fun k => D k data) := by
+  unfold Src.Aes_decrypt Rt.unhexlify; simp only [bind_ok_right]
+
+/-- C13, encrypted forms, for the Triple DES mix-in's static methods as written (the model's Triple DES behind the
+    cipher calls): for every hex key of 8, 16 or 24 bytes and every byte string of whole 8-byte blocks, `encrypt` returns
+    a ciphertext of the same length that `decrypt` under the same key turns back into the data -/
+theorem C13_source_tdes_roundtrip (keyHex : Text) (key : Bytes) (hkey : Pin.unhexlify keyHex = .ok key)
+    (hk : key.length = 8 ∨ key.length = 16 ∨ key.length = 24) (data : Bytes) (hd : data.length % 8 = 0)
+    (hb : IsBytes data) :
+    ∃ ct, Src.Tdes_encrypt tdesE keyHex data = .ok ct ∧ ct.length = data.length ∧
+      Src.Tdes_decrypt tdesD keyHex ct = .ok data := by
+  obtain ⟨ct, hct, hl⟩ := Props.C13.tdes_encrypts key data hk hd
+  refine ⟨ct, ?_, hl, ?_⟩
+  · rw [tdes_encrypt_eq, hkey, bind_ok_eq]; exact hct
+  · rw [tdes_decrypt_eq, hkey, bind_ok_eq]; exact Des.tdesEcb_dec_enc key data ct hb hct
+
+theorem ecbEncrypt_one (key x : Bytes) (hx : x.length = 16) : Aes.ecbEncrypt key x = Aes.encryptBlock key x := by
+  unfold Aes.ecbEncrypt
+  have h0 : ¬ (x.length % 16 ≠ 0) := by omega
+  rw [if_neg h0, hx]
+  have hb : Aes.blocks 16 x = [x] := by
+    match x, hx with
+    | a :: rest, _ =>
+      simp only [Aes.blocks]
+      have ht : List.take 16 (a :: rest) = a :: rest := List.take_of_length_le (by omega)
+      have hdr : List.drop 16 (a :: rest) = [] := List.drop_of_length_le (by omega)
+      rw [ht, hdr]
+      rfl
+  rw [hb]
+  simp only [List.foldr_cons, List.foldr_nil]
+  cases Aes.encryptBlock key x <;> simp
+
+theorem ecbDecrypt_one (key x : Bytes) (hx : x.length = 16) : Aes.ecbDecrypt key x = Aes.decryptBlock key x := by
+  unfold Aes.ecbDecrypt
+  have h0 : ¬ (x.length % 16 ≠ 0) := by omega
+  rw [if_neg h0, hx]
+  have hb : Aes.blocks 16 x = [x] := by
+    match x, hx with
+    | a :: rest, _ =>
+      simp only [Aes.blocks]
+      have ht : List.take 16 (a :: rest) = a :: rest := List.take_of_length_le (by omega)
+      have hdr : List.drop 16 (a :: rest) = [] := List.drop_of_length_le (by omega)
+      rw [ht, hdr]
+      rfl
+  rw [hb]
+  simp only [List.foldr_cons, List.foldr_nil]
+  cases Aes.decryptBlock key x <;> simp
+
+/-- … and for the AES mix-in's static methods as written (the model's AES behind the cipher calls): for every hex key of
+    16, 24 or 32 bytes and every 16-byte block (a format-4 PIN block is one) -/
+theorem C13_source_aes_roundtrip (keyHex : Text) (key : Bytes) (hkey : Pin.unhexlify keyHex = .ok key)
+    (hk : key.length = 16 ∨ key.length = 24 ∨ key.length = 32) (data : Bytes) (hs : Aes.IsState data) :
+    ∃ ct, Src.Aes_encrypt aesE keyHex data = .ok ct ∧ ct.length = 16 ∧
+      Src.Aes_decrypt aesD keyHex ct = .ok data := by
+  obtain ⟨ct, hct⟩ := Props.C13.aes_encrypts key data hk
+  obtain ⟨hdec, hcs⟩ := Aes.decryptBlock_encryptBlock key data ct hs hct
+  refine ⟨ct, ?_, hcs.1, ?_⟩
+  · rw [aes_encrypt_eq, hkey, bind_ok_eq]
+    unfold aesE
+    rw [ecbEncrypt_one key data hs.1, hct]
+  · rw [aes_decrypt_eq, hkey, bind_ok_eq]
+    unfold aesD
+    rw [ecbDecrypt_one key ct hcs.1, hdec]
 
 end Cardutil.SrcTie
